@@ -135,7 +135,9 @@ def rule_semiopen(ctx):
     oks = False
     if sf:
         a = sf[0].args[1]
-        oks = isinstance(a, ast.Tuple) and [norm(e) for e in a.elts] == [a_start.id, a_end.id] and norm(sf[0].args[0]) == "file_info.times" \
+        a0 = flow.resolve(sf[0].args[0], at=sf[0], depth=2)
+        the_file = str(norm(a0)).replace(" ", "") in ("self.get_info(self.path).times", "file_info.times")
+        oks = isinstance(a, ast.Tuple) and [norm(e) for e in a.elts] == [a_start.id, a_end.id] and the_file \
             and _value_chain(flow, a_end.id, enclosing_stmt(sf[0]), base) == fe
     ctx.ob("FileSet.find.single_file", oks, "%s" % (norm(sf[0]) if sf else None), "the single-file arm applies the same test to (start, end - 1 tick)", node=sf[0] if sf else f.node, func=f)
     # __contains__
